@@ -37,7 +37,7 @@ def cases_orders(tier, seed):
     for pat in itertools.product('nbt', repeat=6):
         yield dict(kind='sumproduct', pattern=''.join(pat), other='nnnnnn')
     for pat in ('nnnnnn', 'nbnnnb'):
-        for shape in ('A1:C2|A1:B2', 'A1:C1|A1:A2', 'A1:C2|A1:C1'):
+        for shape in ('A1:C2|A1:B2', 'A1:C1|A1:A2', 'A1:C2|A1:C1', 'A1:C1|A1:A3', 'A1:C2|A1:B3', 'A1:B2|A1:D1', 'A1:A2|A1:B1'):
             yield dict(kind='sumproduct-shape', pattern=pat, shape=shape)
     for n in (100, 255, 256, 300, 1000):
         yield dict(kind='big', n=n)
